@@ -263,3 +263,127 @@ class ProbeFC(object):
                 yield (self.name, "fc", j, self.stamp, tuple(self.filled))
             else:
                 yield (self.name, "fc", j, tuple(self.filled))
+
+
+class ProbeFR(object):
+    """Probe fill/request element: request() yields one tagged result naming
+    the values filled since the previous request (and forgets them)."""
+
+    def __init__(self, log, name, stop_at=None, results=1, keep=False):
+        self.log = log
+        self.name = name
+        self.filled = []
+        self.stop_at = stop_at
+        self.nfills = 0
+        self.requests = 0
+        self.resets = 0
+        self.results = results
+        self.keep = keep     # do not forget on request (cumulative)
+
+    def fill(self, value):
+        k = self.nfills
+        self.nfills += 1
+        if self.stop_at is not None and k >= self.stop_at:
+            self.log.ev("stopfill", self.name, k)
+            raise lena.core.LenaStopFill()
+        self.log.ev("fill", self.name, k, ident(value))
+        self.filled.append(value)
+
+    def request(self):
+        r = self.requests
+        self.requests += 1
+        self.log.ev("request", self.name, r)
+        vals = tuple(self.filled)
+        if not self.keep:
+            self.filled = []
+        for j in range(self.results):
+            yield (self.name, "fr", r, j, vals)
+
+    def reset(self):
+        self.resets += 1
+        self.log.ev("reset", self.name)
+        self.filled = []
+
+
+class ProbeSrc(object):
+    """Probe source element: __call__ yields m tagged values."""
+
+    def __init__(self, log, name, m):
+        self.log = log
+        self.name = name
+        self.m = m
+        self.calls = 0
+
+    def __call__(self):
+        c = self.calls
+        self.calls += 1
+        self.log.ev("srccall", self.name, c)
+        for j in range(self.m):
+            self.log.ev("srcval", self.name, c, j)
+            yield (self.name, "src", c, j)
+
+
+class ProbeStopFillInto(object):
+    """fill_into element that raises LenaStopFill at its k-th call (k >= stop_at),
+    like the StopFill helper of the pinned tests."""
+
+    def __init__(self, log, name, stop_at):
+        self.log = log
+        self.name = name
+        self.stop_at = stop_at
+        self.n = 0
+
+    def fill_into(self, element, value):
+        k = self.n
+        self.n += 1
+        if k >= self.stop_at:
+            self.log.ev("stopfill", self.name, k)
+            raise lena.core.LenaStopFill()
+        element.fill(value)
+
+
+class ProbeRunMulti(object):
+    """Run element: yields *per* results per value and one trailer per run
+    (so that a run over an empty block is visible)."""
+
+    def __init__(self, log, name, per=1, trailer=True):
+        self.log = log
+        self.name = name
+        self.per = per
+        self.trailer = trailer
+        self.runs = 0
+
+    def run(self, flow):
+        r = self.runs
+        self.runs += 1
+        self.log.ev("runbody", self.name, r)
+        n = 0
+        for v in flow:
+            self.log.ev("runval", self.name, r, ident(v))
+            for j in range(self.per):
+                yield (self.name, "run", r, j, v)
+            n += 1
+        if self.trailer:
+            yield (self.name, "run-end", r, n)
+
+
+class Pred(object):
+    """Logged predicate on the provenance serial: mask over serial % 8."""
+
+    def __init__(self, log, name, mask):
+        self.log = log
+        self.name = name
+        self.mask = mask
+        self.__name__ = "pred_" + name.replace(".", "_")
+
+    def ok(self, serial):
+        return bool((self.mask >> (serial % 8)) & 1)
+
+    def __call__(self, value):
+        t = tok_of(value)
+        if t is None:
+            # a value without provenance (e.g. a per-run trailer) always passes
+            self.log.ev("sel", self.name, None)
+            return True
+        self.log.ev("sel", self.name, t.serial)
+        return self.ok(t.serial)
